@@ -1084,7 +1084,7 @@ func buildEvidence(prop, tier string, seed int64, d *Describe, results []RunResu
 	faults := map[string]int{}
 	probes := map[string]int{}
 	sites := map[string]int{}
-	var simNs int64
+	var simSeconds float64
 	var draws, preempts int64
 	var samples []interface{}
 	for _, r := range results {
@@ -1104,7 +1104,7 @@ func buildEvidence(prop, tier string, seed int64, d *Describe, results []RunResu
 		for k, v := range r.Sites {
 			sites[k] += v
 		}
-		simNs += r.SimNs
+		simSeconds += float64(r.SimNs) / 1e9
 		draws += int64(r.Draws)
 		preempts += int64(r.Preempts)
 		if len(r.Sample) > 0 && len(samples) < 3 {
@@ -1135,8 +1135,8 @@ func buildEvidence(prop, tier string, seed int64, d *Describe, results []RunResu
 		"samples":              samples,
 		"distinct_states":      len(states),
 		"states_measure":       "hash of the canonical model/snapshot state noted by the property at its check points",
-		"simulated_time":       time.Duration(simNs).String(),
-		"simulated_seconds":    float64(simNs) / 1e9,
+		"simulated_time":       fmt.Sprintf("%.0fs", simSeconds),
+		"simulated_seconds":    simSeconds,
 		"runs_per_hour":        int64(perHour),
 		"seeds":                []int64{seed},
 		"seeds_per_hour":       "one VERIF_SEED per invocation; every run index of it is an independent PRNG stream (runs_per_hour)",
